@@ -332,7 +332,7 @@ template<class T, glm::qualifier Q> static void angle_axis_ops(const std::vector
     }
     // qua(vec3 eulerAngles): half angles rational
     for (size_t i = 0; i < A.size(); ++i) for (size_t j = 0; j < A.size(); ++j) for (size_t k = 0; k < A.size(); ++k) {
-        if (!g_thorough && (i * 31 + j * 7 + k) % 5 != 0) continue;
+        if ((i * 31 + j * 7 + k) % (g_thorough ? 4 : 5) != 0) continue;
         v3 e; e.x = angle_of_half<T>(A[i]); e.y = angle_of_half<T>(A[j]); e.z = angle_of_half<T>(A[k]);
         qt r = qt(e); E("ctor_euler").arg(e).val("hcs", ivcs({A[i], A[j], A[k]})).res(r).emit();
     }
@@ -425,11 +425,11 @@ template<class T> static void euler_ops(const std::vector<CS>& A, int stride) {
     }
     auto fns = euler3<T>();
     // outer angles from a core subset unless thorough; the middle angle runs through the whole set (gimbal cases included)
-    size_t core = g_thorough ? A.size() : 5;
+    size_t core = g_thorough ? 8 : 4;
     cnt = 0;
     for (size_t i = 0; i < core; ++i) for (size_t j = 0; j < A.size(); ++j) for (size_t k = 0; k < core; ++k) {
         if ((cnt++ % stride) != 0) continue;
-        size_t i1 = g_thorough ? i : (i * 2 + j) % A.size(), k1 = g_thorough ? k : (k * 3 + j + 1) % A.size();
+        size_t i1 = (i * 2 + j) % A.size(), k1 = (k * 3 + j + 1) % A.size();
         CS c1 = A[i1], c2 = A[j], c3 = A[k1];
         T a = angle_of<T>(c1), b = angle_of<T>(c2), c = angle_of<T>(c3);
         IVec cs = ivcs({c1, c2, c3});
@@ -511,7 +511,7 @@ template<class T> static void run_type() {
     for (auto& g : gim) { quat_laws<T, glm::highp>(g, idx, false); if (idx % 8 == 0) quat_more<T, glm::highp>(g, idx); ++idx; }
     for (auto& q : float_gimbal<T, glm::highp>()) { quat_laws_q<T, glm::highp>(q, nullptr, idx); ++idx; }
     // pairs
-    size_t ps = g_thorough ? 17 : 41;
+    size_t ps = g_thorough ? 31 : 41;
     for (size_t i = 0; i < small.size(); i += ps) for (size_t j = (i / ps) % 5; j < small.size(); j += ps + 2) quat_pair<T, glm::highp>(small[i], small[j]);
     for (size_t i = 0; i < near.size(); i += 5) { quat_pair<T, glm::highp>(near[i], small[(i * 13) % small.size()]); quat_pair<T, glm::highp>(small[(i * 11) % small.size()], near[i]); }
     for (size_t i = 0; i + 1 < small.size(); i += ps * 3) { quat_pair<T, glm::mediump>(small[i], small[i + 1]); quat_pair<T, glm::lowp>(small[i + 1], small[i]); }
@@ -519,8 +519,8 @@ template<class T> static void run_type() {
     angle_axis_ops<T, glm::highp>(A, small);
     two_vectors<T, glm::highp>();
     if (g_thorough) two_vectors<T, glm::mediump>();
-    euler_ops<T>(A, g_wxyz_light ? 4 : 1);
-    extract_exact<T>(small, g_wxyz_light ? 37 : (g_thorough ? 3 : 11));
+    euler_ops<T>(A, g_wxyz_light ? 8 : 1);
+    extract_exact<T>(small, g_wxyz_light ? 59 : (g_thorough ? 3 : 17));
 }
 
 static void body(int argc, char** argv) {
